@@ -26,7 +26,7 @@ func (g *G) genFlows() {
 	// first decide identities so flows can reference each other
 	for i := 0; i < n; i++ {
 		typ := "messaging"
-		switch t.Weighted("flowtype", 8, 2, 1) {
+		switch t.Weighted("flowtype", 8, 2, 2) {
 		case 1:
 			typ = "messaging_background"
 		case 2:
